@@ -1346,13 +1346,13 @@ pub fn param_sets(cfg: &RunCfg) -> Vec<(String, ParamSpec, usize, bool)> {
     // P2: BFV, power-of-two plain modulus, descending order
     v.push(("bfv_p2_pow2".to_string(), ParamSpec::new(Scheme::BFV, 4, chain(4, &[59, 50, 50, 40]), 16), 2, true));
     // P3: BFV, t larger than the smallest prime (multi-precision lift), ascending order
-    v.push(("bfv_p3_mplift".to_string(), ParamSpec::new(Scheme::BFV, 8, chain(8, &[13, 55, 60, 60]), 257), 2, true));
+    v.push(("bfv_p3_mplift".to_string(), ParamSpec::new(Scheme::BFV, 8, chain(8, &[13, 55, 60, 60]), 257), if th { 3 } else { 2 }, true));
     // P4: BGV, six 60-bit primes, t=17 (all 16 units as correction factors)
-    v.push(("bgv_p4".to_string(), ParamSpec::new(Scheme::BGV, 4, chain(4, &[60, 60, 60, 60, 60, 60]), 17), 2, true));
+    v.push(("bgv_p4".to_string(), ParamSpec::new(Scheme::BGV, 4, chain(4, &[60, 60, 60, 60, 60, 60]), 17), if th { 3 } else { 2 }, true));
     // P5: BGV, t=5: small unit group, abstract fixpoint in the quick tier, depth 2
     v.push(("bgv_p5_t5".to_string(), ParamSpec::new(Scheme::BGV, 4, chain(4, &[60, 60, 60, 60, 60]), 5), if th { 3 } else { 2 }, true));
     // P6: BGV, multi-precision lift
-    v.push(("bgv_p6_mplift".to_string(), ParamSpec::new(Scheme::BGV, 8, chain(8, &[13, 55, 60, 60, 60]), 257), 2, true));
+    v.push(("bgv_p6_mplift".to_string(), ParamSpec::new(Scheme::BGV, 8, chain(8, &[13, 55, 60, 60, 60]), 257), if th { 3 } else { 2 }, true));
     // P7: single modulus: no key switching, no lower level
     v.push(("bfv_p7_single".to_string(), ParamSpec::new(Scheme::BFV, 4, chain(4, &[60]), 17), 2, true));
     // P8: special prime used for encryption (first level = key level)
@@ -1367,7 +1367,7 @@ pub fn param_sets(cfg: &RunCfg) -> Vec<(String, ParamSpec, usize, bool)> {
     v.push(("bgv_p14_all_plaintexts".to_string(), ParamSpec::new(Scheme::BGV, 2, chain(2, &[40, 40, 40]), 5), 1, true));
     // short chains: programs run the budget down to zero
     v.push(("bfv_p11_short".to_string(), ParamSpec::new(Scheme::BFV, 4, chain(4, &[30, 27, 30]), 17), 2, true));
-    v.push(("bgv_p12_short".to_string(), ParamSpec::new(Scheme::BGV, 4, chain(4, &[40, 30, 40]), 17), 2, true));
+    v.push(("bgv_p12_short".to_string(), ParamSpec::new(Scheme::BGV, 4, chain(4, &[40, 30, 40]), 17), if th { 3 } else { 2 }, true));
     if th {
         v.push(("bfv_p9_n16".to_string(), ParamSpec::new(Scheme::BFV, 16, chain(16, &[60, 60, 60, 60]), 97), 2, true));
         v.push(("bgv_p10_two".to_string(), ParamSpec::new(Scheme::BGV, 4, chain(4, &[60, 60]), 17), 2, true));
